@@ -79,6 +79,7 @@ type Gateway struct {
 	nextOut uint8    // sequence number of the next new request
 
 	ReuseChannel bool
+	tcp          *simnet.TCPConn   // non-nil: the connection runs over a TCP stream (no acknowledgements, no sequence numbers)
 	RawOf        map[int][]byte    // telegram id -> cEMI bytes to transmit instead of the id frame
 	OnBus        func(cemi []byte) // called for every telegram accepted from the client
 
@@ -113,6 +114,46 @@ func (g *Gateway) hpai() []byte {
 	return mkHPAI(1, [4]byte{ip[0], ip[1], ip[2], ip[3]}, uint16(g.addr.Port))
 }
 
+// newTCPGateway listens on a TCP port; StartTCP accepts one connection and serves it.
+func newTCPGateway(e *Env, ip string, port int) (*Gateway, *simnet.TCPListener) {
+	g := &Gateway{e: e, OutResend: time.Second, OutAttempts: 2, DiscOnGiveUp: true, Window: 1}
+	g.addr = &net.UDPAddr{IP: net.ParseIP(ip).To4(), Port: port}
+	g.nextChan = uint8(e.Choose("cfg.chan0", 256))
+	return g, e.F.ListenTCPOn(ip, port)
+}
+
+// StartTCP serves the accepted connection: frames are cut out of the byte stream by their
+// header's total length.
+func (g *Gateway) StartTCP(lis *simnet.TCPListener) {
+	g.e.S.Spawn("gateway", func() {
+		c, err := lis.Accept()
+		if err != nil {
+			return
+		}
+		g.tcp = c
+		var stream []byte
+		buf := make([]byte, 4096)
+		for {
+			n, err := c.Read(buf)
+			if err != nil {
+				return
+			}
+			stream = append(stream, buf[:n]...)
+			for len(stream) >= 6 {
+				tl := int(stream[4])<<8 | int(stream[5])
+				if tl < 6 {
+					return
+				}
+				if len(stream) < tl {
+					break
+				}
+				g.handle(append([]byte(nil), stream[:tl]...), nil, 0)
+				stream = stream[tl:]
+			}
+		}
+	})
+}
+
 // Start launches the gateway's receive task.
 func (g *Gateway) Start() {
 	g.e.S.Spawn("gateway", func() {
@@ -128,6 +169,10 @@ func (g *Gateway) Start() {
 }
 
 func (g *Gateway) send(b []byte) {
+	if g.tcp != nil {
+		g.tcp.Write(b)
+		return
+	}
 	if g.peer == nil {
 		return
 	}
@@ -275,6 +320,14 @@ func (g *Gateway) handle(raw []byte, from *net.UDPAddr, ref uint64) {
 		if ep == nil || f.Channel != ep.Channel {
 			return // unknown connection: ignored (a real server answers nothing useful either)
 		}
+		if g.tcp != nil {
+			// a TCP connection carries no acknowledgements and no sequence numbers
+			g.Bus = append(g.Bus, BusEntry{ID: cemiID(f.CEMI), Channel: f.Channel, Seq: f.Seq, At: g.e.Stamp()})
+			if g.OnBus != nil {
+				g.OnBus(append([]byte(nil), f.CEMI...))
+			}
+			return
+		}
 		switch f.Seq {
 		case ep.ExpIn:
 			ep.ExpIn++
@@ -365,6 +418,17 @@ func (g *Gateway) transmit(o *GwOut) {
 	c := idCEMI(0x29, o.ID)
 	if raw, ok := g.RawOf[o.ID]; ok {
 		c = raw
+	}
+	if g.tcp != nil {
+		g.send(mkTunnelReq(o.Channel, 0, c))
+		o.Acked, o.AckAt = true, g.e.Stamp() // the stream delivers it; nothing to wait for
+		for i, p := range g.pend {
+			if p == o {
+				g.pend = append(g.pend[:i:i], g.pend[i+1:]...)
+			}
+		}
+		g.e.S.At(0, "gw-tcp-next", func() { g.kick() })
+		return
 	}
 	g.send(mkTunnelReq(o.Channel, o.Seq, c))
 	g.e.S.At(g.OutResend, fmt.Sprintf("gw-resend id=%d", o.ID), func() {
